@@ -125,6 +125,8 @@ def type_ok(v, t):
             return True
         if a == "emptydict" and isinstance(v, dict) and not v:
             return True
+        if a.startswith("dict[") and isinstance(v, dict):
+            return True
         if a == "file" and hasattr(v, "read") and hasattr(v, "data"):
             return True
         if a in CLASSES:
@@ -221,6 +223,7 @@ def check_call(fq, args, kwargs=None, contract=None, fn=None):
                     break
             except Exception:
                 continue
+    del specfuns._TRACE[:]
     try:
         result = call_with_timeout(fn, ba.args, ba.kwargs)
     except CallTimeout:
